@@ -5,6 +5,6 @@ MODELS = ["MeshGen", "MultiSec"]
 STREAMS = [meshgen.stream_rect, meshgen.stream_sections, meshgen.stream_sections_asymmetric, jac_geom.stream_multisection_jac]
 ORACLES = [c14.oracle_generate_mesh, c14.oracle_sections, c14.oracle_join_component]
 UNPROVED = ["CRM / uCRM planforms are table data interpolated by numpy: their ordering, symmetry, half/full and offset properties are checked per instance by the oracle, not proved",
-            "cosine-blended spacing is proved monotone only through the rectangular model's hypothesis that the blended spanwise stations are strictly increasing (a convex combination of two increasing station lists); the station lists themselves are compared with the code by the stream",
-            "unify_mesh / GeomMultiUnification reproduce the stitched surface: oracle only"]
+            "monotone stations are proved for blending factors 0 <= span_cos_spacing, chord_cos_spacing <= 1 (C14_rect_y_strictly_increasing, C14_rect_x_strictly_increasing); the special branch span_cos_spacing == 2 is modelled and compared with the code by the stream but not covered by the monotonicity theorem",
+            "GeomMultiUnification without the leading-edge shift reproduces the stitched surface: proved (C14_unification_reproduces_the_sections, C14_unification_keeps_shared_edges); with the shift, and the plain-python unify_mesh, by the oracle"]
 ASSUMPTIONS = ["finding F08 (the asymmetric multi-section branch did not join sections right of the root) is fixed in /repo (6265a26); the repaired branch is modelled, proved to join and executed against the code"]
